@@ -224,19 +224,24 @@ theorem upstream_entry_ok (up : Msg → Msg) (hup : ∀ m, countOpt (up m).extra
   simp only [upstreamAnswer] at hr'
   rw [hr] at hr'; injection hr' with hr'; subst hr'; exact h0
 
-/-! ### The cache entry across transactions (chains of forward_edns0opt / ttl around a cache) -/
+/-! ### The cache entry across transactions (chains of forward_edns0opt / ecs_handler / ttl around a cache) -/
 section CacheLife
 open Model.C15
 
-/-- **`copyNoOpt` always returns a new message** (regenerated fact): the entry is never the live response. -/
-theorem copyAliases_never : copyAliases = fun _ => false := by
-  funext _; unfold copyAliases; decide
+/-- **The regenerated facts are the ones the theorems need**: `copyNoOpt` always returns a new message (the entry is
+never the live response), `addECS` reports "forwarded" only when the client's own option went upstream, and a context
+copy has a response OPT of its own. -/
+theorem genCode_clean : genCode = clean := by
+  have h1 : copyAliases = fun _ => false := by funext _; unfold copyAliases; decide
+  have h2 : ecsLoose = false := by unfold ecsLoose; decide
+  have h3 : copyShares = false := by unfold copyShares; decide
+  unfold genCode clean; rw [h1, h2, h3]
 
 theorem copyNoOpt_count (m : Msg) : countOpt (copyNoOpt m).extra = 0 := by
   simp [copyNoOpt, countOpt, List.filter_filter]
 
 theorem exec_slot_ok (up : Up) (ps : List Plugin) (c : Ctx) (s : Slot) (hs : s.ok) :
-    (exec (fun _ => false) up ps c s).slot.ok := by
+    (exec clean up ps c s).slot.ok := by
   induction ps generalizing c with
   | nil => unfold exec; split <;> exact hs
   | cons p ps ih =>
@@ -247,27 +252,34 @@ theorem exec_slot_ok (up : Up) (ps : List Plugin) (c : Ctx) (s : Slot) (hs : s.o
       split
       · exact ih _
       · exact ih _
+    | ecs fw own =>
+      simp only [exec]
+      split
+      · exact ih _
+      · split
+        · exact ih _
+        · exact ih _
     | cache =>
       simp only [exec]
       split
       · split
         · have := copyNoOpt_count
           simp only [countOpt] at this
-          simp [Slot.ok, this]
+          simp [Slot.ok, this, clean]
         · exact ih _
       · exact ih _
 
-/-- **Cached answers never contain an OPT**: whatever the chain (forwarders and ttl in any order around the cache),
-the client's query, the upstream's outcome and OPT, every transaction through `Handle` leaves an entry without OPT
-behind - with `copyNoOpt` as regenerated (`copyAliases`). -/
+/-- **Cached answers never contain an OPT**: whatever the chain (forwarders, ecs_handler and ttl in any order around
+the cache), the client's query, the upstream's outcome and OPT, every transaction through `Handle` leaves an entry
+without OPT behind - with `copyNoOpt` as regenerated (`genCode`). -/
 theorem cached_never_contains_opt (chain : List Plugin) (up : Up) (q : Msg) (s : Slot) (hs : s.ok) :
-    (transact copyAliases chain up q s).slot.ok := by
-  rw [copyAliases_never]
+    (transact genCode chain up q s).slot.ok := by
+  rw [genCode_clean]
   unfold transact
   split
   · exact hs
   · have h := exec_slot_ok up chain (newContext q) s hs
-    generalize exec (fun _ => false) up chain (newContext q) s = R at h ⊢
+    generalize exec clean up chain (newContext q) s = R at h ⊢
     cases hsl : R.slot with
     | empty => simp only [hsl]; trivial
     | own m => rw [hsl] at h; simp only [hsl]; exact h
@@ -276,31 +288,48 @@ theorem cached_never_contains_opt (chain : List Plugin) (up : Up) (q : Msg) (s :
 /-- Why the fact is needed: if `copyNoOpt` handed back its argument when there is no OPT to strip, the entry filled by
 an EDNS0 client would contain that client's response OPT once `Handle` is done with the response, and the next client
 served from the cache through a forwarding plugin would be sent the first exchange's cookie. -/
-def leakAliases : Msg → Bool := fun m => countOpt m.extra == 0
+def leakCode : Code := { clean with aliases := fun m => countOpt m.extra == 0 }
 def leakChain : List Plugin := [.fwd [10], .cache]
 def leakQ1 : Msg := { id := 1, question := [⟨[97], 1, 1⟩], extra := [.opt { udpSize := 1232, doBit := false, options := [(10, 1)] }] }
 def leakQ2 : Msg := { id := 2, question := [⟨[97], 1, 1⟩], extra := [.opt { udpSize := 512, doBit := true, options := [] }] }
-def leakT1 : Tx := transact leakAliases leakChain (.ans 0 1 [.opt { udpSize := 1232, doBit := false, options := [(10, 77)] }]) leakQ1 .empty
-def leakT2 : Tx := transact leakAliases leakChain .none leakQ2 leakT1.slot
+def leakT1 : Tx := transact leakCode leakChain (.ans 0 1 [.opt { udpSize := 1232, doBit := false, options := [(10, 77)] }]) leakQ1 .empty
+def leakT2 : Tx := transact leakCode leakChain .none leakQ2 leakT1.slot
 def replyOptions (t : Tx) : Option (List (List (Nat × Nat))) :=
   t.reply.map (fun r => r.extra.filterMap (fun x => match x with | .opt o => some o.options | _ => none))
 
 theorem alias_leaks : ¬ leakT1.slot.ok ∧ replyOptions leakT2 = some [[(10, 77)]] := by
   decide
 
-/-- the same two exchanges with `copyNoOpt` as regenerated: a clean entry, and the second client gets a bare OPT -/
-example : (transact copyAliases leakChain (.ans 0 1 [.opt { udpSize := 1232, doBit := false, options := [(10, 77)] }]) leakQ1 .empty).slot.ok ∧
-    replyOptions (transact copyAliases leakChain .none leakQ2
-      (transact copyAliases leakChain (.ans 0 1 [.opt { udpSize := 1232, doBit := false, options := [(10, 77)] }]) leakQ1 .empty).slot) = some [[]] ∧
-    replyOptions (transact copyAliases leakChain (.ans 0 1 [.opt { udpSize := 1232, doBit := false, options := [(10, 77)] }]) leakQ1 .empty) = some [[(10, 77)]] := by
+/-- the same two exchanges with `copyNoOpt` as it is: a clean entry, and the second client gets a bare OPT -/
+example : (transact clean leakChain (.ans 0 1 [.opt { udpSize := 1232, doBit := false, options := [(10, 77)] }]) leakQ1 .empty).slot.ok ∧
+    replyOptions (transact clean leakChain .none leakQ2
+      (transact clean leakChain (.ans 0 1 [.opt { udpSize := 1232, doBit := false, options := [(10, 77)] }]) leakQ1 .empty).slot) = some [[]] ∧
+    replyOptions (transact clean leakChain (.ans 0 1 [.opt { udpSize := 1232, doBit := false, options := [(10, 77)] }]) leakQ1 .empty) = some [[(10, 77)]] := by
   decide
+
+/-- Why `c15EcsForwardedLoosePaths` is needed: `forward` together with `preset` / `send` is the documented "the client's
+subnet if it sent one, otherwise ours" set-up. If `addECS` reported "forwarded" whenever `forward` is set, a client whose
+OPT has no client-subnet option would be handed the upstream's echo of the operator's preset address. -/
+def ecsChain : List Plugin := [.ecs true (some 100)]
+def ecsQ : Msg := { id := 3, question := [⟨[97], 1, 1⟩], extra := [.opt { udpSize := 1232, doBit := false, options := [(10, 1)] }] }
+def ecsUp : Up := .ans 0 1 [.opt { udpSize := 1232, doBit := false, options := [(8, 7), (10, 9)] }]
+
+theorem ecs_loose_leaks :
+    replyOptions (transact { clean with ecsLoose := true } ecsChain ecsUp ecsQ .empty) = some [[(8, 7)]] ∧
+    replyOptions (transact clean ecsChain ecsUp ecsQ .empty) = some [[]] ∧
+    replyOptions (transact clean ecsChain ecsUp { ecsQ with extra := [.opt { udpSize := 1232, doBit := false, options := [(8, 1)] }] } .empty) = some [[(8, 7)]] := by
+  decide
+
+/-- the client sent a client-subnet option -/
+def clientHasEcs (clo : Option Opt) : Prop := ∃ co, clo = some co ∧ ∃ p ∈ co.options, p.1 = 8
 
 /-- what holds of a context while the chain runs: no OPT in the response, the upstream OPT is the one of this
 exchange's upstream answer, and every option of the response OPT was forwarded explicitly from it -/
-structure Inv (ex : List RR) (codes : List Nat) (c : Ctx) : Prop where
+structure Inv (ex : List RR) (allow : Nat → Prop) (clo : Option Opt) (c : Ctx) : Prop where
   resp : ∀ r, c.resp = some r → countOpt r.extra = 0
   upo : ∀ o, c.upstreamOpt = some o → RR.opt o ∈ ex
-  ro : ∀ ro, c.respOpt = some ro → ∀ p ∈ ro.options, p.1 ∈ codes ∧ ∃ uo, RR.opt uo ∈ ex ∧ p ∈ uo.options
+  ro : ∀ ro, c.respOpt = some ro → ∀ p ∈ ro.options, allow p.1 ∧ ∃ uo, RR.opt uo ∈ ex ∧ p ∈ uo.options
+  cl : c.clientOpt = clo
 
 theorem popOpt_mem (l : List RR) (o : Opt) (h : (popOpt l).2 = some o) : RR.opt o ∈ l := by
   induction l with
@@ -317,10 +346,10 @@ theorem popOpt_mem (l : List RR) (o : Opt) (h : (popOpt l).2 = some o) : RR.opt 
         | opt o3 => simp at h; subst h; simp
         | rr => simp at h
 
-theorem setResponse_inv (ex : List RR) (codes : List Nat) (c : Ctx) (m : Msg) (hc : Inv ex codes c)
+theorem setResponse_inv (ex : List RR) (allow : Nat → Prop) (clo : Option Opt) (c : Ctx) (m : Msg) (hc : Inv ex allow clo c)
     (hm : countOpt m.extra ≤ 1) (hsub : ∀ o, RR.opt o ∈ m.extra → RR.opt o ∈ ex) :
-    Inv ex codes (c.setResponse (some m)) := by
-  refine ⟨?_, ?_, ?_⟩
+    Inv ex allow clo (c.setResponse (some m)) := by
+  refine ⟨?_, ?_, ?_, hc.cl⟩
   · intro r hr
     simp only [Ctx.setResponse] at hr
     injection hr with hr; subst hr
@@ -334,43 +363,94 @@ theorem setResponse_inv (ex : List RR) (codes : List Nat) (c : Ctx) (m : Msg) (h
     simp only [Ctx.setResponse] at hro
     exact hc.ro ro hro
 
-theorem fwdBack_resp (cs : List Nat) (c : Ctx) : (fwdBack cs c).resp = c.resp ∧ (fwdBack cs c).upstreamOpt = c.upstreamOpt := by
-  unfold fwdBack; split <;> exact ⟨rfl, rfl⟩
+/-- a message without OPT can be set as response whatever the exchange's upstream said -/
+theorem setResponse_inv0 (ex : List RR) (allow : Nat → Prop) (clo : Option Opt) (c : Ctx) (m : Msg) (hc : Inv ex allow clo c)
+    (hm : countOpt m.extra = 0) : Inv ex allow clo (c.setResponse (some m)) := by
+  refine setResponse_inv ex allow clo c m hc (by omega) ?_
+  intro o ho
+  have : RR.opt o ∈ m.extra.filter RR.isOpt := List.mem_filter.mpr ⟨ho, rfl⟩
+  unfold countOpt at hm
+  rw [List.length_eq_zero_iff.mp hm] at this
+  cases this
+
+theorem fwdBack_resp (cs : List Nat) (c : Ctx) : (fwdBack cs c).resp = c.resp ∧ (fwdBack cs c).upstreamOpt = c.upstreamOpt ∧
+    (fwdBack cs c).clientOpt = c.clientOpt := by
+  unfold fwdBack; split <;> exact ⟨rfl, rfl, rfl⟩
+
+theorem ecsBack_resp (c : Ctx) : (ecsBack c).resp = c.resp ∧ (ecsBack c).upstreamOpt = c.upstreamOpt ∧
+    (ecsBack c).clientOpt = c.clientOpt := by
+  unfold ecsBack; split
+  · split <;> exact ⟨rfl, rfl, rfl⟩
+  · exact ⟨rfl, rfl, rfl⟩
+
+/-- `addECS` touches the query only, and (as regenerated: not loose) reports "forwarded" only if `forward` is set and
+the client's OPT had a client-subnet option -/
+theorem addECS_spec (fw : Bool) (own : Option Nat) (c : Ctx) :
+    (addECS false fw own c).1.resp = c.resp ∧ (addECS false fw own c).1.respOpt = c.respOpt ∧
+    (addECS false fw own c).1.upstreamOpt = c.upstreamOpt ∧ (addECS false fw own c).1.clientOpt = c.clientOpt ∧
+    ((addECS false fw own c).2 = true → fw = true ∧ clientHasEcs c.clientOpt) := by
+  unfold addECS
+  split
+  · simp
+  · split
+    · rename_i o ho
+      refine ⟨rfl, rfl, rfl, rfl, fun _ => ?_⟩
+      unfold clientEcs at ho
+      cases fw with
+      | false => simp at ho
+      | true =>
+        refine ⟨rfl, ?_⟩
+        simp only [if_true] at ho
+        cases hco : c.clientOpt with
+        | none => rw [hco] at ho; simp at ho
+        | some co =>
+          rw [hco] at ho
+          simp only [Option.bind] at ho
+          have h8 := List.find?_some ho
+          exact ⟨co, rfl, o, List.mem_of_find?_eq_some ho, by simpa [isEcs] using h8⟩
+    · split
+      · simp [appendQ]
+      · simp
 
 theorem mem_plugCodes_cons (p : Plugin) (ps : List Plugin) (x : Nat) (h : x ∈ plugCodes ps) : x ∈ plugCodes (p :: ps) := by
   cases p <;> simp [plugCodes, h]
 
-theorem exec_inv (up : Up) (codes : List Nat) (hex : countOpt up.extra ≤ 1) (ps : List Plugin)
-    (hps : ∀ x ∈ plugCodes ps, x ∈ codes) (c : Ctx) (s : Slot) (hs : s.ok) (hc : Inv up.extra codes c) :
-    Inv up.extra codes (exec (fun _ => false) up ps c s).c := by
+theorem ecsForwards_cons (p : Plugin) (ps : List Plugin) (h : ecsForwards ps = true) : ecsForwards (p :: ps) = true := by
+  cases p <;> simp [ecsForwards, h]
+
+theorem exec_inv (up : Up) (allow : Nat → Prop) (clo : Option Opt) (hex : countOpt up.extra ≤ 1) (ps : List Plugin)
+    (hps : ∀ x ∈ plugCodes ps, allow x) (hecs : ecsForwards ps = true → clientHasEcs clo → allow 8)
+    (c : Ctx) (s : Slot) (hs : s.ok) (hc : Inv up.extra allow clo c) :
+    Inv up.extra allow clo (exec clean up ps c s).c := by
   induction ps generalizing c with
   | nil =>
     unfold exec
     split
     · exact hc
-    · exact setResponse_inv _ _ _ _ hc hex (fun o h => h)
+    · exact setResponse_inv _ _ _ _ _ hc hex (fun o h => h)
     · exact hc
     · exact hc
   | cons p ps ih =>
-    have hps' : ∀ x ∈ plugCodes ps, x ∈ codes := fun x hx => hps x (mem_plugCodes_cons p ps x hx)
+    have hps' : ∀ x ∈ plugCodes ps, allow x := fun x hx => hps x (mem_plugCodes_cons p ps x hx)
+    have hecs' : ecsForwards ps = true → clientHasEcs clo → allow 8 := fun h => hecs (ecsForwards_cons p ps h)
     cases p with
-    | ttl => simp only [exec]; exact ih hps' c hc
+    | ttl => simp only [exec]; exact ih hps' hecs' c hc
     | fwd cs =>
-      have hq : Inv up.extra codes (addQOpts cs c) := by
+      have hq : Inv up.extra allow clo (addQOpts cs c) := by
         unfold addQOpts
         split
         · exact hc
-        · exact ⟨hc.resp, hc.upo, hc.ro⟩
-      have h1 := ih hps' (addQOpts cs c) hq
+        · exact ⟨hc.resp, hc.upo, hc.ro, hc.cl⟩
+      have h1 := ih hps' hecs' (addQOpts cs c) hq
       simp only [exec]
       split
       · exact h1
-      · refine ⟨?_, ?_, ?_⟩
+      · refine ⟨?_, ?_, ?_, ?_⟩
         · intro r hr
           simp only [(fwdBack_resp cs _).1] at hr
           exact h1.resp r hr
         · intro o ho
-          simp only [(fwdBack_resp cs _).2] at ho
+          simp only [(fwdBack_resp cs _).2.1] at ho
           exact h1.upo o ho
         · intro ro hro p hp
           unfold fwdBack at hro
@@ -385,21 +465,61 @@ theorem exec_inv (up : Up) (codes : List Nat) (hex : countOpt up.extra ≤ 1) (p
               have : p.1 ∈ cs := by simpa using hcode
               simp [plugCodes, this]
           · exact h1.ro ro hro p hp
+        · rw [(fwdBack_resp cs _).2.2]; exact h1.cl
+    | ecs fw own =>
+      obtain ⟨a1, a2, a3, a4, a5⟩ := addECS_spec fw own c
+      have hq : Inv up.extra allow clo (addECS false fw own c).1 :=
+        ⟨by rw [a1]; exact hc.resp, by rw [a3]; exact hc.upo, by rw [a2]; exact hc.ro, by rw [a4]; exact hc.cl⟩
+      have h1 := ih hps' hecs' _ hq
+      simp only [exec]
+      have hl : clean.ecsLoose = false := rfl
+      rw [hl]
+      generalize exec clean up ps (addECS false fw own c).1 s = R at h1 ⊢
+      cases hf : R.failed with
+      | true => simp only [if_true]; exact h1
+      | false =>
+        simp only [Bool.false_eq_true, if_false]
+        cases hfw : (addECS false fw own c).2 with
+        | false => simp only [Bool.false_eq_true, if_false]; exact h1
+        | true =>
+          simp only [if_true]
+          obtain ⟨hfw1, hfw2⟩ := a5 hfw
+          rw [hc.cl] at hfw2
+          have h8 : allow 8 := hecs (by simp [ecsForwards, hfw1]) hfw2
+          refine ⟨?_, ?_, ?_, ?_⟩
+          · intro r hr
+            simp only [(ecsBack_resp _).1] at hr
+            exact h1.resp r hr
+          · intro o ho
+            simp only [(ecsBack_resp _).2.1] at ho
+            exact h1.upo o ho
+          · intro ro hro p hp
+            unfold ecsBack at hro
+            split at hro
+            · rename_i ro0 uo hro0 huo
+              split at hro
+              · rename_i o ho
+                simp only at hro
+                injection hro with hro; subst hro
+                simp only [List.mem_append, List.mem_singleton] at hp
+                rcases hp with hp | hp
+                · exact h1.ro ro0 hro0 p hp
+                · subst hp
+                  have hc8 : p.1 = 8 := by simpa [isEcs] using List.find?_some ho
+                  exact ⟨by rw [hc8]; exact h8, uo, h1.upo uo huo, List.mem_of_find?_eq_some ho⟩
+              · exact h1.ro ro hro p hp
+            · exact h1.ro ro hro p hp
+          · rw [(ecsBack_resp _).2.2]; exact h1.cl
     | cache =>
-      have hin : Inv up.extra codes (match (match s with | Slot.own m => some m | _ => none) with
+      have hin : Inv up.extra allow clo (match (match s with | Slot.own m => some m | _ => none) with
           | some m => cacheHit m c | none => c) := by
         cases s with
         | empty => exact hc
         | live => exact hc
         | own m =>
           have hm : countOpt m.extra = 0 := hs
-          refine setResponse_inv _ _ _ _ hc (by simp only [countOpt] at hm ⊢; omega) ?_
-          intro o ho
-          have : RR.opt o ∈ m.extra.filter RR.isOpt := List.mem_filter.mpr ⟨ho, rfl⟩
-          unfold countOpt at hm
-          rw [List.length_eq_zero_iff.mp hm] at this
-          cases this
-      have h1 := ih hps' _ hin
+          exact setResponse_inv0 _ _ _ _ _ hc hm
+      have h1 := ih hps' hecs' _ hin
       simp only [exec]
       split
       · split
@@ -407,8 +527,8 @@ theorem exec_inv (up : Up) (codes : List Nat) (hex : countOpt up.extra ≤ 1) (p
         · exact h1
       · exact h1
 
-theorem exec_respOpt (aliases : Msg → Bool) (up : Up) (ps : List Plugin) (c : Ctx) (s : Slot) :
-    (exec aliases up ps c s).c.respOpt.map (·.doBit) = c.respOpt.map (·.doBit) := by
+theorem exec_respOpt (k : Code) (up : Up) (ps : List Plugin) (c : Ctx) (s : Slot) :
+    (exec k up ps c s).c.respOpt.map (·.doBit) = c.respOpt.map (·.doBit) := by
   induction ps generalizing c with
   | nil => unfold exec; split <;> simp [upstreamAnswer, Ctx.setResponse]
   | cons p ps ih =>
@@ -425,6 +545,28 @@ theorem exec_respOpt (aliases : Msg → Bool) (up : Up) (ps : List Plugin) (c : 
         split
         · rename_i uo ro huo hro; simp [hro]
         · rfl
+    | ecs fw own =>
+      have hq : (addECS k.ecsLoose fw own c).1.respOpt = c.respOpt := by
+        unfold addECS
+        split
+        · rfl
+        · split
+          · rfl
+          · split <;> rfl
+      simp only [exec]
+      split
+      · rw [ih, hq]
+      · split
+        · rw [← hq, ← ih (addECS k.ecsLoose fw own c).1]
+          simp only
+          unfold ecsBack
+          split
+          · rename_i ro uo hro huo
+            split
+            · simp [hro]
+            · rfl
+          · rfl
+        · rw [ih, hq]
     | cache =>
       simp only [exec]
       have hh : ∀ m, (cacheHit m c).respOpt = c.respOpt := by
@@ -444,47 +586,37 @@ theorem exec_respOpt (aliases : Msg → Bool) (up : Up) (ps : List Plugin) (c : 
         · split <;> rw [ih]
         · rw [ih]
 
-/-- **The reply carries exactly one OPT iff the client's query had one, DO mirrored, and every option in it was
-forwarded explicitly (its code is listed by a forward_edns0opt plugin of the chain) from the OPT of the upstream
-answer of this very exchange** - for every chain of forwarders / ttl around a cache, whatever the cache holds
-(an entry without OPT, which `cached_never_contains_opt` maintains), every client query and every upstream outcome
-with at most one OPT. In particular nothing of an earlier exchange comes back, and when the upstream gave no OPT
-(or no answer) the reply's OPT has no options. -/
-theorem reply_opt_this_exchange (chain : List Plugin) (up : Up) (q : Msg) (s : Slot)
-    (hv : validQuery q = true) (hs : s.ok) (hex : countOpt up.extra ≤ 1) :
-    ∃ r, (transact copyAliases chain up q s).reply = some r ∧
-      countOpt r.extra = (if countOpt q.extra = 1 then 1 else 0) ∧
-      ∀ o, RR.opt o ∈ r.extra → (∃ co, RR.opt co ∈ q.extra ∧ o.doBit = co.doBit) ∧
-        ∀ p ∈ o.options, p.1 ∈ plugCodes chain ∧ ∃ uo, RR.opt uo ∈ up.extra ∧ p ∈ uo.options := by
+/-- which option codes a chain may hand from the upstream's OPT to the client: the codes listed by its
+forward_edns0opt plugins, and the client-subnet code if an ecs_handler has `forward` set AND the client's own query
+carried a client-subnet option (what is forwarded is the client's option; an upstream's echo of an address of the
+handler's own making is not for the client) -/
+def allowed (chain : List Plugin) (q : Msg) (code : Nat) : Prop :=
+  code ∈ plugCodes chain ∨
+  (code = 8 ∧ ecsForwards chain = true ∧ ∃ co, RR.opt co ∈ q.extra ∧ ∃ p ∈ co.options, p.1 = 8)
+
+/-- from the invariant on the final context to the message `Handle` packs -/
+theorem reply_of_inv (q : Msg) (hv : validQuery q = true) (ex : List RR) (allow : Nat → Prop) (R : Ctx) (failed : Bool)
+    (hI : Inv ex allow (newContext q).clientOpt R)
+    (hD : R.respOpt.map (·.doBit) = (newContext q).respOpt.map (·.doBit)) :
+    countOpt (finish (fun m _ => m) false R (base R failed)).extra = (if countOpt q.extra = 1 then 1 else 0) ∧
+      ∀ o, RR.opt o ∈ (finish (fun m _ => m) false R (base R failed)).extra → (∃ co, RR.opt co ∈ q.extra ∧ o.doBit = co.doBit) ∧
+        ∀ p ∈ o.options, allow p.1 ∧ ∃ uo, RR.opt uo ∈ ex ∧ p ∈ uo.options := by
   obtain ⟨hiff, hro⟩ := respOpt_iff q hv
-  rw [copyAliases_never]
-  unfold transact
-  simp only [hv, Bool.not_true, Bool.false_eq_true, if_false]
-  refine ⟨_, rfl, ?_⟩
-  have h0 : Inv up.extra (plugCodes chain) (newContext q) := by
-    refine ⟨?_, ?_, ?_⟩
-    · intro r hr; simp [newContext] at hr
-    · intro o ho; simp [newContext] at ho
-    · intro ro hr p hp
-      rw [(hro ro hr).1] at hp; cases hp
-  have hI := exec_inv up (plugCodes chain) hex chain (fun x hx => hx) (newContext q) s hs h0
-  have hD := exec_respOpt (fun _ => false) up chain (newContext q) s
-  generalize exec (fun _ => false) up chain (newContext q) s = R at hI hD
   rw [finish_opt]
-  have hbase : countOpt (base R.c R.failed).extra = 0 := by
+  have hbase : countOpt (base R failed).extra = 0 := by
     unfold base
     split
     · simp [setReply, countOpt]
     · split
       · rename_i r hr; exact hI.resp r hr
       · simp [setReply, countOpt]
-  have hbase' : ∀ o, RR.opt o ∉ (base R.c R.failed).extra := by
+  have hbase' : ∀ o, RR.opt o ∉ (base R failed).extra := by
     intro o ho
-    have : RR.opt o ∈ (base R.c R.failed).extra.filter RR.isOpt := List.mem_filter.mpr ⟨ho, rfl⟩
+    have : RR.opt o ∈ (base R failed).extra.filter RR.isOpt := List.mem_filter.mpr ⟨ho, rfl⟩
     unfold countOpt at hbase
     rw [List.length_eq_zero_iff.mp hbase] at this
     cases this
-  cases hR : R.c.respOpt with
+  cases hR : R.respOpt with
   | none =>
     rw [hR] at hD
     have hn : (newContext q).respOpt = none := by
@@ -512,6 +644,175 @@ theorem reply_opt_this_exchange (chain : List Plugin) (up : Up) (q : Msg) (s : S
           obtain ⟨_, co, _, h3, h4⟩ := hro _ hN
           exact ⟨⟨co, h3, by rw [hdo, h4]⟩, hI.ro _ hR⟩
 
+theorem newContext_inv (q : Msg) (hv : validQuery q = true) (ex : List RR) (allow : Nat → Prop) :
+    Inv ex allow (newContext q).clientOpt (newContext q) := by
+  obtain ⟨_, hro⟩ := respOpt_iff q hv
+  refine ⟨?_, ?_, ?_, rfl⟩
+  · intro r hr; simp [newContext] at hr
+  · intro o ho; simp [newContext] at ho
+  · intro ro hr p hp
+    rw [(hro ro hr).1] at hp; cases hp
+
+/-- the client's OPT kept by the context is the OPT record of the client's query -/
+theorem clientHasEcs_query (q : Msg) (hv : validQuery q = true) (h : clientHasEcs (newContext q).clientOpt) :
+    ∃ co, RR.opt co ∈ q.extra ∧ ∃ p ∈ co.options, p.1 = 8 := by
+  obtain ⟨co, hco, hp⟩ := h
+  have hlen : q.extra.length ≤ 1 := by simp [validQuery] at hv; exact hv.2
+  refine ⟨co, ?_, hp⟩
+  match hq : q.extra, hlen with
+  | [], _ => simp [newContext, hq, swapOpt, swapOptAux] at hco
+  | [.opt o], _ => simp [newContext, hq, swapOpt, swapOptAux] at hco; simp [hco]
+  | [.rr n t l d], _ => simp [newContext, hq, swapOpt, swapOptAux] at hco
+
+/-- **The reply carries exactly one OPT iff the client's query had one, DO mirrored, and every option in it was
+forwarded explicitly (its code is listed by a forward_edns0opt plugin of the chain, or it is the client-subnet option,
+an ecs_handler of the chain has `forward` set and the client's own query carried a client-subnet option) from the OPT of
+the upstream answer of this very exchange** - for every chain of forwarders / ecs_handler / ttl around a cache,
+whatever the cache holds (an entry without OPT, which `cached_never_contains_opt` maintains), every client query and
+every upstream outcome with at most one OPT. In particular nothing of an earlier exchange comes back, a client that
+sent no client-subnet option is not handed the upstream's echo of ecs_handler's preset, and when the upstream gave no
+OPT (or no answer) the reply's OPT has no options. -/
+theorem reply_opt_this_exchange (chain : List Plugin) (up : Up) (q : Msg) (s : Slot)
+    (hv : validQuery q = true) (hs : s.ok) (hex : countOpt up.extra ≤ 1) :
+    ∃ r, (transact genCode chain up q s).reply = some r ∧
+      countOpt r.extra = (if countOpt q.extra = 1 then 1 else 0) ∧
+      ∀ o, RR.opt o ∈ r.extra → (∃ co, RR.opt co ∈ q.extra ∧ o.doBit = co.doBit) ∧
+        ∀ p ∈ o.options, allowed chain q p.1 ∧ ∃ uo, RR.opt uo ∈ up.extra ∧ p ∈ uo.options := by
+  rw [genCode_clean]
+  unfold transact
+  simp only [hv, Bool.not_true, Bool.false_eq_true, if_false]
+  refine ⟨_, rfl, ?_⟩
+  have hI := exec_inv up (allowed chain q) (newContext q).clientOpt hex chain (fun x hx => Or.inl hx)
+    (fun he hc => Or.inr ⟨rfl, he, clientHasEcs_query q hv hc⟩) (newContext q) s hs (newContext_inv q hv _ _)
+  have hD := exec_respOpt clean up chain (newContext q) s
+  exact reply_of_inv q hv up.extra _ _ _ hI hD
+
+/-! ### Sub-queries on copies of the context -/
+
+def Branch.extra : Option Branch → List RR
+  | some b => b.up.extra
+  | none => []
+
+def Branch.plugins : Option Branch → List Plugin
+  | some b => b.chain
+  | none => []
+
+theorem foldl_keep (ds : List Branch) (c : Ctx) (ro : Option Opt) :
+    ds.foldl (fun ro b => if clean.copyShares then (runOn clean b { c with respOpt := ro }).c.respOpt else ro) ro = ro := by
+  induction ds generalizing ro with
+  | nil => rfl
+  | cons d ds ih => simp only [List.foldl_cons]; exact ih _
+
+/-- **With a response OPT of its own in every context copy, the parent's response OPT is out of reach of the
+sub-queries**: whatever the discarded sub-queries did (any chains, any upstream answers), after `fork` the context
+carries no OPT in its response and every option of its response OPT was forwarded explicitly from the upstream answer of
+the sub-query whose result was adopted. -/
+theorem fork_inv (mode : Adopt) (ds : List Branch) (w : Option Branch) (allow : Nat → Prop) (clo : Option Opt)
+    (hex : countOpt (Branch.extra w) ≤ 1)
+    (hstored : ∀ m, mode = .lazy m → countOpt m.extra = 0)
+    (hps : ∀ x ∈ plugCodes (Branch.plugins w), allow x)
+    (hecs : ecsForwards (Branch.plugins w) = true → clientHasEcs clo → allow 8)
+    (c : Ctx) (hc : Inv (Branch.extra w) allow clo c) :
+    Inv (Branch.extra w) allow clo (fork clean mode ds w c).1 := by
+  unfold fork
+  simp only [foldl_keep]
+  cases mode with
+  | fallback =>
+    cases w with
+    | none => exact hc
+    | some b =>
+      have h1 := exec_inv b.up allow clo hex b.chain hps hecs c .empty trivial hc
+      simp only [runOn, clean, Bool.false_eq_true, if_false] at h1 ⊢
+      split
+      · rename_i m _ hm
+        exact setResponse_inv0 _ _ _ _ _ hc (h1.resp m hm)
+      · exact hc
+  | selector =>
+    cases w with
+    | none =>
+      simp only [localAnswer]
+      exact setResponse_inv0 _ _ _ _ _ hc (by simp [setReply, countOpt])
+    | some b => exact exec_inv b.up allow clo hex b.chain hps hecs c .empty trivial hc
+  | «lazy» stored =>
+    have hin : Inv (Branch.extra w) allow clo (cacheHit stored c) :=
+      setResponse_inv0 _ _ _ _ _ hc (hstored stored rfl)
+    cases w with
+    | none =>
+      simp only [Option.getD, runOn]
+      exact exec_inv .none allow clo (by simp [Up.extra, countOpt]) [] (by simp [plugCodes]) (by simp [ecsForwards]) _ .empty trivial hin
+    | some b => exact exec_inv b.up allow clo hex b.chain hps hecs _ .empty trivial hin
+
+theorem fork_respOpt (mode : Adopt) (ds : List Branch) (w : Option Branch) (c : Ctx) :
+    (fork clean mode ds w c).1.respOpt.map (·.doBit) = c.respOpt.map (·.doBit) := by
+  unfold fork
+  simp only [foldl_keep]
+  cases mode with
+  | fallback =>
+    cases w with
+    | none => rfl
+    | some b =>
+      simp only [clean, Bool.false_eq_true, if_false]
+      split
+      · simp [Ctx.setResponse]
+      · rfl
+  | selector =>
+    cases w with
+    | none => simp [localAnswer, Ctx.setResponse]
+    | some b => exact exec_respOpt clean b.up b.chain c .empty
+  | «lazy» stored =>
+    have hh : (cacheHit stored c).respOpt = c.respOpt := by simp [cacheHit, Ctx.setResponse]
+    simp only [runOn]
+    rw [exec_respOpt, hh]
+
+/-- **Plugins that run sub-queries on copies (fallback, dual_selector, the lazy cache's refresh) leak nothing of a
+discarded sub-query**: with `Context.CopyTo` as regenerated, for every client query, every set of discarded sub-queries
+(any chains of forwarders / ecs_handler, any upstream answers with any options) all finished before the reply is made,
+the reply carries exactly one OPT iff the client's query had one, DO mirrored, and every option in it was forwarded
+explicitly from the upstream answer of the adopted sub-query by a plugin of that sub-query. -/
+theorem fork_reply (mode : Adopt) (ds : List Branch) (w : Option Branch) (q : Msg)
+    (hv : validQuery q = true) (hex : countOpt (Branch.extra w) ≤ 1) (hstored : ∀ m, mode = .lazy m → countOpt m.extra = 0) :
+    ∃ r, reply (fork genCode mode ds w) (fun m _ => m) false q = some r ∧
+      countOpt r.extra = (if countOpt q.extra = 1 then 1 else 0) ∧
+      ∀ o, RR.opt o ∈ r.extra → (∃ co, RR.opt co ∈ q.extra ∧ o.doBit = co.doBit) ∧
+        ∀ p ∈ o.options, allowed (Branch.plugins w) q p.1 ∧ ∃ uo, RR.opt uo ∈ Branch.extra w ∧ p ∈ uo.options := by
+  rw [genCode_clean]
+  unfold reply
+  simp only [hv, Bool.not_true, Bool.false_eq_true, if_false]
+  refine ⟨_, rfl, ?_⟩
+  have hI := fork_inv mode ds w (allowed (Branch.plugins w) q) (newContext q).clientOpt hex hstored (fun x hx => Or.inl hx)
+    (fun he hc => Or.inr ⟨rfl, he, clientHasEcs_query q hv hc⟩) (newContext q) (newContext_inv q hv _ _)
+  exact reply_of_inv q hv _ _ _ _ hI (fork_respOpt mode ds w (newContext q))
+
+/-- **fallback hands the client no upstream option at all**: the adopted response is set with `SetResponse` on the
+parent, whose response OPT no sub-query can reach. -/
+theorem fork_fallback_respOpt (ds : List Branch) (w : Option Branch) (c : Ctx) :
+    (fork clean .fallback ds w c).1.respOpt = c.respOpt := by
+  unfold fork
+  simp only [foldl_keep]
+  cases w with
+  | none => rfl
+  | some b =>
+    simp only [clean, Bool.false_eq_true, if_false]
+    split
+    · simp [Ctx.setResponse]
+    · rfl
+
+/-- Why `c15CopyToRespOptDeep` is needed: fallback with `forward_edns0opt 65001` in both branches, the secondary
+(always_standby) finishing before the primary's answer arrives. If a copy shared the parent's response OPT, the client
+would be handed the option of the discarded secondary answer as well, and the option code twice. -/
+def forkQ : Msg := { id := 4, question := [⟨[97], 1, 1⟩], extra := [.opt { udpSize := 1232, doBit := true, options := [] }] }
+def forkSec : Branch := ⟨[.fwd [65001]], .ans 0 1 [.opt { udpSize := 1232, doBit := false, options := [(65001, 7)] }]⟩
+def forkPrim : Branch := ⟨[.fwd [65001]], .ans 0 1 [.opt { udpSize := 1232, doBit := false, options := [(65001, 9)] }]⟩
+def forkOptions (k : Code) (mode : Adopt) (ds : List Branch) (w : Option Branch) (q : Msg) : Option (List (List (Nat × Nat))) :=
+  (reply (fork k mode ds w) (fun m _ => m) false q).map (fun r => r.extra.filterMap (fun x => match x with | .opt o => some o.options | _ => none))
+
+theorem shared_respOpt_leaks :
+    forkOptions { clean with copyShares := true } .fallback [forkSec] (some forkPrim) forkQ = some [[(65001, 7), (65001, 9)]] ∧
+    forkOptions clean .fallback [forkSec] (some forkPrim) forkQ = some [[]] ∧
+    forkOptions { clean with copyShares := true } .selector [forkSec] (some forkPrim) forkQ = some [[(65001, 7), (65001, 9)]] ∧
+    forkOptions clean .selector [forkSec] (some forkPrim) forkQ = some [[(65001, 9)]] := by
+  decide
+
 end CacheLife
 
 /-! ### Guards over the regenerated facts -/
@@ -519,7 +820,8 @@ theorem facts_guard :
     Gen.Facts.c15NewContextSwapsOpt = some true ∧ Gen.Facts.c15SetResponsePopsOpt = some true ∧
     Gen.Facts.c15RespOptMirrorsDo = some true ∧ Gen.Facts.c15FreshOptShape = some true ∧
     Gen.Facts.c15CopyNoOptDropsOpt = some true ∧ Gen.Facts.c15OnlyEcsForwardsBack = some true ∧
-    Gen.Facts.c15CopyNoOptAliasPaths = some 0 ∧ Gen.Facts.c10StoreCopies = some true := by decide
+    Gen.Facts.c15CopyNoOptAliasPaths = some 0 ∧ Gen.Facts.c10StoreCopies = some true ∧
+    Gen.Facts.c15EcsForwardedLoosePaths = some 0 ∧ Gen.Facts.c15CopyToRespOptDeep = some true := by decide
 
 /-! ### Non-vacuity -/
 def clientOpt : Opt := { udpSize := 4096, doBit := true, options := [(10, 1), (8, 2)] }
